@@ -129,10 +129,12 @@ SegmentationViol(s, info, L, t) ==
     \cup V(Len(t.segs) = Len(info) /\ \A k \in 1..Len(info) : Len(t.segs[k].subs) = Len(info[k].subs), "SegmentStructureAsGiven")
     \cup SegsViol(t) \cup V(TrisOK(t.tris, t.nv), "TriangleIndicesValid")
 \* partition assignment (LE/SE/FO3 dismember partitions): each triangle with label l ends up in partition l
+\* labels may name a partition beyond the given infos (it is created) or be -1 (unassigned: the call puts them somewhere)
 PartAssignViol(s, L, t) ==
     V(BagEq(CanonSeq(t.tris), CanonSeq(s.tris)), "TrianglesArePermutation")
-    \cup V(Len(t.triParts) = Len(t.tris) /\ BagEq([k \in 1..Len(s.tris) |-> <<Canon(s.tris[k]), L[k]>>], [k \in 1..Len(t.tris) |-> <<Canon(t.tris[k]), t.triParts[k]>>]),
-           "PartitionLabelsRoundTrip")
+    \cup V(Len(t.triParts) = Len(t.tris) /\
+           \A k \in 1..Len(s.tris) : L[k] >= 0 =>
+               \E j \in 1..Len(t.tris) : Canon(t.tris[j]) = Canon(s.tris[k]) /\ t.triParts[j] = L[k], "PartitionLabelsRoundTrip")
 
 (* ---------------- C13: a setter followed by its getter ---------------- *)
 \* ev.attr is the attribute set, ev.given the per-vertex content ids of the values handed in, s/t the shape before/after
